@@ -117,10 +117,14 @@ func genC03(seed uint64, run int, tier string) *Plan {
 		}
 	}
 	if r.IntN(5) == 0 {
-		// one cursor advanced by all tasks
+		// one cursor advanced by all tasks (with statement-level scheduling points: the cursor's own critical
+		// sections are short)
+		if p.Cfg.Fine == 0 {
+			p.Cfg.Fine = 1
+		}
 		tp.Ops = append([]Op{{K: "sleep", Ms: int64(1 + r.IntN(100))}, {K: "csr.share"}}, tp.Ops...)
 		for ti := range p.Tasks {
-			for k := 1 + r.IntN(3); k > 0; k-- {
+			for k := 2 + r.IntN(4); k > 0; k-- {
 				at := r.IntN(len(p.Tasks[ti].Ops) + 1)
 				ops := append([]Op{}, p.Tasks[ti].Ops[:at]...)
 				ops = append(ops, Op{K: "csr.next", N: 1 + r.IntN(3)})
@@ -189,8 +193,8 @@ func execC03(t *testing.T, plan *Plan) *Outcome {
 		done := false
 		e.sim.Go("final-recheck", false, func(*simrt.Task) {
 			if shared != nil {
-				for shared.csr.Next(context.Background()) {
-					shared.nexts++
+				for k := 0; k < 1000 && shared.csr.Next(context.Background()); k++ {
+					shared.nexts++ // (bounded: a cursor that never ends is a wrong count too)
 				}
 				ok := false
 				var sizes []int
